@@ -208,6 +208,10 @@ func (e *Exec) rtIntrinsic(name string, fn *ssa.Function, args []Value) (Value, 
 		e.addPC(tb.Eq(tb.UF("b32wf", 0, sp), tb.And(tb.Not(isPad), wfCore)))
 		e.addNondet(NondetRec{Name: n + "_wf", Kind: "uint", T: tb.Ite(wfCore, tb.BV(1, 8), tb.BV(0, 8))})
 		e.addNondet(NondetRec{Name: n + "_valid", Kind: "uint", T: tb.Ite(okCore, tb.BV(1, 8), tb.BV(0, 8))})
+		// what the string decodes to (the same uninterpreted functions AccAddressFromBech32 uses): put
+		// into the witness so that the native run can build the account with exactly these bytes
+		decT := e.bytesFromTerm(tb.UF("b32dec", 8*addrCap, cp), addrCap, false)
+		e.addNondet(NondetRec{Name: n + "_dec", Kind: "bytes", Len: tb.UF("b32declen", 64, cp), IsNil: tb.ff, Bytes: decT.a.b})
 		return TupleV{sv, valid}, true
 	case "NondetAddr":
 		// class 0: canonical bech32 of 20 arbitrary bytes; 1: upper-case spelling; 2: a short junk
